@@ -250,6 +250,9 @@ func (c *Chain) Step(o StepOpts) (*Block, error) {
 			}
 			ok, err := c.Process(i, prop, h, t, txs, lc, o.Evidence)
 			if err != nil || !ok {
+				if err == nil {
+					err = c.whyRejected(i, txs)
+				}
 				return nil, &ErrRejected{Height: h, Node: i, Err: err}
 			}
 		}
@@ -500,3 +503,21 @@ func (c *Chain) BlockTx(prop int, h int64, proposerField string, payload *goatxt
 
 // ValAddrStr is the bech32 account address of validator i.
 func (w *World) ValAddrStr(i int) string { return sdk.AccAddress(w.Vals[i].Cons).String() }
+
+// whyRejected re-checks each transaction of a refused proposal in CheckTx mode to name the culprit
+// (diagnostics only; the application logs the reason but returns just REJECT).
+func (c *Chain) whyRejected(i int, txs [][]byte) error {
+	for k, tx := range txs {
+		if k == 0 {
+			continue
+		}
+		res, err := c.Nodes[i].App.CheckTx(&abci.RequestCheckTx{Tx: tx, Type: abci.CheckTxType_New})
+		if err != nil {
+			return fmt.Errorf("tx %d: %v", k, err)
+		}
+		if res.Code != 0 {
+			return fmt.Errorf("tx %d refused by the ante chain: %s", k, res.Log)
+		}
+	}
+	return fmt.Errorf("no single transaction is refused in check mode (%d txs)", len(txs))
+}
